@@ -598,6 +598,9 @@ class Client(base_client.BaseClient):
                 if not will_reconnect:
                     self._trigger_event('__disconnect_final', n)
             self.connected = False
+        if will_reconnect and self.eio.state != 'connected':
+            # the application disconnected while the loss was being reported
+            will_reconnect = False
         self.namespaces = {}
         self.callbacks = {}
         self._binary_packet = None
